@@ -161,7 +161,10 @@ def handle (op : String) (j : Json) : Except String Json := do
     let key ← keyFn (← (← j.getObjVal? "which").getStr?)
     let msgs ← msgsOfJson (← j.getObjVal? "msgs")
     let C ← cacheOfJson (← j.getObjVal? "cache")
-    pure (Json.mkObj [("events", evsTo (eventsFor key convTailC C msgs))])
+    let isState := match j.getObjVal? "state" with | .ok (.bool b) => b | _ => false
+    let guarded := match j.getObjVal? "statefix" with | .ok (.bool b) => b | _ => false
+    let ev := if isState then eventsForState guarded key convTailC C [] msgs else eventsFor key convTailC C msgs
+    pure (Json.mkObj [("events", evsTo ev)])
   | "convert" =>
     let a ← (← j.getObjVal? "tails").getArr?
     let tails ← a.toList.mapM msgsOfJson
